@@ -1550,6 +1550,19 @@ impl SysComp {
         if w.show_reg() != pre_reg {
             mon.fail("C19", "sys-reload-touched-registration", format!("`{op}`: registration manager {pre_reg} -> {}", w.show_reg()));
         }
+        // C07: "accepts a REG2 only from the uplink that REG1 was sent on" - the manager names that uplink by POSITION,
+        // so a reload that removes nothing (add-only, same list, re-ordered file) must leave every surviving uplink at
+        // its position (a removal shifts positions in the unchanged code as well: documented observation, not judged)
+        if removed.is_empty() {
+            if let Some(i) = pre_pending {
+                mon.count("reload-with-pending-registration-nothing-removed");
+                let was = before.get(i).map(|l| l.id);
+                let is = after.get(i).map(|l| l.id);
+                if was != is {
+                    mon.fail("C07", "sys-reload-moved-pending-registration", format!("`{op}` removed nothing, yet the position {i} on which the outstanding REG1 was sent now holds uplink {is:?} instead of {was:?}: a REG2 arriving on another uplink would be accepted"));
+                }
+            }
+        }
         // C11: the remembered previous selection is forgotten iff the vector shifted
         if !removed.is_empty() {
             if w.last_selected.is_some() {
@@ -3633,6 +3646,18 @@ fn gen_reload(rng: &mut Rng, tier: Tier) -> Vec<String> {
         if rng.chance(1, 3) {
             if let Some(a) = g.fresh_addr() {
                 list.push(a);
+            }
+        }
+        if rng.chance(1, 3) {
+            // nothing removed: the file lists a NEW address above the existing ones, or the same uplinks in another
+            // order - every surviving uplink keeps its position, the outstanding REG1 still names the same uplink
+            list = g.list();
+            if rng.chance(2, 3) {
+                if let Some(a) = g.fresh_addr() {
+                    list.insert(rng.below(list.len() as u64) as usize, a);
+                }
+            } else {
+                list.reverse();
             }
         }
         g.now += rng.below(30);
